@@ -13,7 +13,7 @@ MANIFEST = {
  'design_ref': 'DESIGN.md §6 C05',
 }
 THEOREMS = ['C05.driverParseMsg_total', 'C05.driverParseMsg_str', 'C05.unescape_escape', 'C05.parse_format', 'C05.parse_total', 'C05.format_cached', 'C05.tagEscape_table_sep',
-            'C05.hostFields_total', 'C05.copy_identity', 'C05.copy_fields', 'C05.pickle_roundtrip', 'C05.parseFull_total', 'C05.wf_of_wfd', 'C05.wfd_of_wf',
+            'C05.hostFields_total', 'C05.hostFields_join', 'C05.copy_identity', 'C05.copy_fields', 'C05.pickle_roundtrip', 'C05.parseFull_total', 'C05.wf_of_wfd', 'C05.wfd_of_wf',
             'C05.tagEscape_table_ok']
 TRUSTED = ['Lean 4.33.0 kernel; axioms ⊆ {propext, Classical.choice, Quot.sound}',
            'harness/extract.py (SERVER_TAG_ESCAPE table → Gen/IrcMsgs.lean)',
